@@ -630,7 +630,7 @@ func init() {
 		Bubble: true,
 		Cases: func(tier string) int {
 			if tier == "thorough" {
-				return 15000
+				return 60000
 			}
 
 			return 700
